@@ -36,6 +36,7 @@ func main() {
 		{"Facts.lean", extractFacts},
 		{"Compile.lean", extractCompile},
 		{"Pool.lean", extractPool},
+		{"Locks.lean", extractLocks},
 	}
 	for _, g := range gens {
 		s, err := g.fn(*repo)
